@@ -26,6 +26,7 @@ type Task struct {
 	blockedSince int
 	prio         int
 	started      bool
+	goid         int64
 	fn           func()
 }
 
@@ -107,6 +108,7 @@ func (s *Sched) start(t *Task) {
 	t.started = true
 	go func() {
 		<-t.wake
+		t.goid = goid()
 		defer func() {
 			if r := recover(); r != nil {
 				if _, ok := r.(abortRun); !ok {
